@@ -139,6 +139,9 @@ def h_crash(k: int) -> bool:
             _setup(env, SCEN)
             st, cache, other = _mk_objects(env, None, SCEN)
             env.inner.crash_at = len(env.inner.log) + kk
+            # cube interrupt: the process dies from an interrupt delivered as an exception (SIGINT -> KeyboardInterrupt): the stack
+            # unwinds, `finally:` blocks and BaseException handlers still run against the live filesystem before the process is gone
+            env.inner.freeze_on_crash = not cube("interrupt", False)
         crashed = False
         at = ""
         try:
